@@ -60,6 +60,12 @@ Theorem C20_offers_distinct : forall final permits, NoDup final -> NoDup (gossip
 Proof. exact gossip_offers_nodup. Qed.
 Print Assumptions C20_offers_distinct.
 
+(* with a free outbound slot for every target each of them gets the batch, in order *)
+Theorem C20_offers_all_when_slots_suffice : forall final permits,
+  (length final <= permits)%nat -> gossip_offers final permits = final.
+Proof. exact gossip_offers_all. Qed.
+Print Assumptions C20_offers_all_when_slots_suffice.
+
 (* the call succeeds whenever there is content, a key per content item and no malformed cache entry among the 32 nearest *)
 Theorem C20_select_total : forall shuf cid srt nodelist c src nc nk,
   nc <> 0 -> nc <= nk -> no_bad_entries c (firstn 32 (srt nodelist)) = true ->
